@@ -19,15 +19,15 @@ def run(chk):
         'leader-advance loop summarised as repeat(n, next_player)) evaluated for every leader x cards-in-trick 1..4 x '
         'highest-trump position (-1,0..3) x highest-led-suit position 0..3: record carries the OLD leader and the cards after '
         'this card; new leader = old leader advanced by the trump winner if any else by the winner of the suit of card 0; '
-        'exactly one +1 to the NEW leader\'s side; turn/trick bookkeeping. calc_highest uses cards only through suit identity '
-        'and rank comparison (use analysis), so folding it on every suit-membership pattern x rank order of 4 cards decides it '
+        'exactly one +1 to the NEW leader\'s side; turn/trick bookkeeping. calc_highest is folded with order-abstract ranks (values that support nothing but order comparisons; '
+        'any other use is an analysis error) on every asked suit x suits of the 4 cards x weak order of the ranks, which decides it '
         'for all tricks. Constructor: dummy = declarer.partner, opening leader = declarer\'s left, passed-out refused. '
         'has_done <=> 13 tricks completed.')
     from .playfold import fourth_card_rule
     fourth_card_rule(chk, 'C04.R6')
     seat_tables(chk, 'C04.R1', f)
     w_pc, q_pc = loc(repo, BASE, 'play_card', 'C04.R1')
-    paths = P.summ.paths(BASE, 'play_card')
+    paths = P.summ.paths(BASE, 'play_card', allow_truncated=True)
     chk.note(f'{len(paths)} paths of play_card; trick list role = {P.trick}')
     card = Tok('card')
     trumpS = f.member('Suit', 'H')
@@ -125,42 +125,40 @@ def run(chk):
     # ---- calc_highest: comparison-only use, then fold on all membership patterns x rank orders ----------------
     w_ch, q_ch = loc(repo, BASE, 'calc_highest', 'C04.R2')
     ch_ci, ch = repo.method(BASE, 'calc_highest', 'C04.R2')
-    # a thin wrapper `return helper(...)` around a module-level function: the use analysis applies to the helper
-    _body = [b for b in ch.body if not (isinstance(b, ast.Expr) and isinstance(b.value, ast.Constant))]
-    if len(_body) == 1 and isinstance(_body[0], ast.Return) and isinstance(_body[0].value, ast.Call) and isinstance(_body[0].value.func, ast.Name) \
-            and _body[0].value.func.id in ch_ci.module.functions:
-        ch = ch_ci.module.functions[_body[0].value.func.id]
-    bad = None
-    for n in ast.walk(ch):
-        if isinstance(n, ast.Attribute) and n.attr in ('rank', 'suit'):
-            par = parent(n)
-            if isinstance(par, ast.Compare):
-                continue
-            if isinstance(par, ast.Assign) and par.value is n:
-                continue
-            if isinstance(par, ast.Tuple) and isinstance(parent(par), ast.Assign) and parent(par).value is par:
-                continue        # stored into a local together with other values (a, b = i, card.rank)
-            bad = ast.unparse(par)
-    if bad:
-        raise AnalysisError('C04.R2', q_ch, f'card rank/suit used outside comparisons (`{bad}`): order-class argument does not apply')
-    S, H, C = f.member('Suit', 'S'), f.member('Suit', 'H'), f.member('Suit', 'C')
+    # Order abstraction of the ranks (fold.OrdInt): the cards carry ranks of which only the order exists, so one fold per weak
+    # order of the four ranks decides every assignment of ranks 2..14 with that order; an operation on a rank that is not an order
+    # comparison leaves the abstraction (analysis error).  The suits are enumerated completely: asked suit x suit of every card.
+    from ..fold import OrdInt
+    suits = [f.member('Suit', n) for n in ('C', 'D', 'H', 'S')]
     NT = f.member('Suit', 'NT')
-    ranks = (2, 6, 11, 14)
+    reps = (2, 6, 11, 14)
+    weak = sorted({tuple(sorted(set(t)).index(x) for x in t) for t in itertools.product(range(4), repeat=4)})
+    other_choices = [(0, 0, 0, 0), (0, 1, 2, 0), (2, 1, 0, 1)] if chk.tier == 'quick' else list(itertools.product(range(3), repeat=4))
     first_bad = None
     n = 0
-    for pattern in itertools.product([True, False], repeat=4):
-        for perm in itertools.permutations(ranks):
-            cards = [f.make('Card', rank=perm[i], suit=S if pattern[i] else (H if i % 2 else C)) for i in range(4)]
-            mem = [i for i in range(4) if pattern[i]]
-            want = max(mem, key=lambda i: perm[i]) if mem else -1
-            for suit, w in ((S, want), (NT, -1)):
-                n += 1
-                got = try_fold('C04.R2', q_ch, lambda: f.call_class(BASE, 'calc_highest', suit, cards))
-                if got != ('ok', w) and first_bad is None:
-                    first_bad = (suit, [str(f.str_of(c)) for c in cards], got, w)
+    seen_cases = set()
+    for asked in suits + [NT]:
+        others = [x for x in suits if x is not asked]
+        for pattern in itertools.product([True, False], repeat=4):
+            for oc in other_choices:
+                csuits = tuple(asked if (pattern[i] and asked is not NT) else others[oc[i] % len(others)] for i in range(4))
+                for order in weak:
+                    if any(csuits[a] is csuits[b] and order[a] == order[b] for a in range(4) for b in range(a + 1, 4)):
+                        continue        # the same card twice
+                    key = (asked.name, tuple(x.name for x in csuits), order)
+                    if key in seen_cases:
+                        continue
+                    seen_cases.add(key)
+                    cards = [f.make('Card', rank=OrdInt(reps[order[i]], 2, 14), suit=csuits[i]) for i in range(4)]
+                    mem = [i for i in range(4) if csuits[i] is asked]
+                    want = max(mem, key=lambda i: order[i]) if mem else -1
+                    n += 1
+                    got = try_fold('C04.R2', q_ch, lambda: f.call_class(BASE, 'calc_highest', asked, cards))
+                    if got != ('ok', want) and first_bad is None:
+                        first_bad = (asked.name, [f'{c.name}{reps[o]}' for c, o in zip(csuits, order)], got, want)
     chk.evals(n)
-    chk.require(first_bad is None, 'C04.R2', w_ch, q_ch, 'calc_highest on all suit-membership patterns x rank orders',
-                f'calc_highest returns the position of the highest card of the suit (-1 if none / no-trump) on all {n} order classes',
+    chk.require(first_bad is None, 'C04.R2', w_ch, q_ch, 'calc_highest on every asked suit x card suits x weak order of the ranks (order-abstract ranks)',
+                f'calc_highest returns the position of the highest card of the suit (-1 if none / no-trump) on all {n} suit assignments x rank orders',
                 f'calc_highest({first_bad[0]}, {first_bad[1]}) = {first_bad[2]}, expected {first_bad[3]}' if first_bad else '')
 
     # ---- R4 constructor --------------------------------------------------------------------------------------------
